@@ -20,6 +20,25 @@ func init() {
 }
 
 func c11(c *Ctx) {
+	{
+		// one DB object (= one lock domain) per name: existence check, creation and registration form one critical section of Store.mu
+		p := c.P
+		lock := p.CallWhere("sync.(*Mutex).Lock", `^sync\.\(\*Mutex\)\.Lock\(&p0\.mu\)$`)
+		unlock := func(in ssa.Instruction) bool {
+			d, ok := in.(*ssa.Defer)
+			return ok && p.RenderCall(d) == "sync.(*Mutex).Unlock(&p0.mu)"
+		}
+		for _, f := range []string{"litefs.(*Store).CreateDB", "litefs.(*Store).CreateDBIfNotExists"} {
+			short := f[len("litefs.(*Store)."):]
+			work := Any(p.CallsRe(`litefs\.OS\.(MkdirAll|WriteFile|OpenFile)`), p.PlainCalls("litefs.NewDB", "litefs.(*DB).Open"), p.Writes("litefs.Store.dbs[]"))
+			c.Before("single-domain/"+short+"/locked-throughout", f, work, lock, 3, short+" takes Store.mu before it creates the files, builds the DB object and registers it", "two racing requests for a new name otherwise each build a DB object; the later registration replaces the earlier one, so a halt lock held through one object no longer excludes writers that go through the other")
+			c.Before("single-domain/"+short+"/unlock-deferred", f, work, unlock, 3, "... and releases it only by a deferred unlock (held until return)", "")
+			c.NoPath("single-domain/"+short+"/no-relock", f, lock, lock, 1, "... in one critical section (the mutex is not taken a second time)", "")
+			c.OnlyIn("single-domain/"+short+"/lookup-not-delegated", func(in ssa.Instruction) bool {
+				return p.PlainCalls("litefs.(*Store).DB")(in) && p.FuncName(topFunc(in.Parent())) == f
+			}, nil, 0, short+" reads Store.dbs itself under that lock instead of calling Store.DB (which locks and unlocks on its own)", "")
+		}
+	}
 	p := c.P
 	// ---- full-set ----
 	ta := "litefs.(*DB).TryAcquireWriteLock"
